@@ -584,6 +584,9 @@ fn c19_judge(c: &C19Case, obs: &mut Obs) -> Result<(), String> {
     for (i, t) in c.tls.iter().enumerate().take(3) {
         sb = sb.add(KEYS[i], build_a(t));
     }
+    // sometimes an unrelated entity with an animator that has no timeline exists (and comes first
+    // in iteration order): it must not influence the entity under test
+    let idle = if c.b_delay % 2 == 1 { Some(app.world.spawn((A::from_vals(&c.start), Animator::<A>::new())).id()) } else { None };
     let mut chain_map = std::collections::HashMap::new();
     let mut ec = app.world.spawn((start.clone(), Animator::<A>::new(), sb.build()));
     if let Some(ch) = &c.chain {
@@ -759,6 +762,11 @@ fn c19_judge(c: &C19Case, obs: &mut Obs) -> Result<(), String> {
         }
     }
     let _ = set_since_frame;
+    if let Some(e) = idle {
+        if !w.app.world.get::<A>(e).unwrap().same(&A::from_vals(&c.start)) {
+            return Err("an unrelated idle entity was modified".into());
+        }
+    }
     obs.label_if(9, hyps[0].alive);
     obs.label_if(10, hyps[1].alive);
     let l = obs.labels;
